@@ -17,9 +17,28 @@ memcpy(void * dst, const void * src, size_t n)
 		    __CPROVER_POINTER_OFFSET(src) >= __CPROVER_POINTER_OFFSET(dst) + n ||
 		    __CPROVER_POINTER_OFFSET(dst) >= __CPROVER_POINTER_OFFSET(src) + n,
 		    "memcpy src/dst overlap");
+#ifdef VERIF_MEMCPY_BYTES
+		/*
+		 * byte-wise copy with a compile-time bound (complete for n <= VERIF_MEMCPY_BYTES, MODEL-BOUND otherwise):
+		 * CBMC's array_copy/array_replace primitives lose the content when source and destination objects have
+		 * different element types (e.g. copying an array of pointers into a fresh malloc'ed array, mpool_free).
+		 */
+		size_t verif_i;
+		(void)&verif_i;
+		for (verif_i = 0; verif_i < VERIF_MEMCPY_BYTES; verif_i++) {
+			if (verif_i >= n)
+				break;
+			((char *)dst)[verif_i] = ((const char *)src)[verif_i];
+		}
+		if (n > VERIF_MEMCPY_BYTES) {
+			__CPROVER_assert(0, "MODEL-BOUND memcpy: length exceeds VERIF_MEMCPY_BYTES");
+			__CPROVER_assume(0);
+		}
+#else
 		char src_n[n];
 		__CPROVER_array_copy(src_n, (char *)src);
 		__CPROVER_array_replace((char *)dst, src_n);
+#endif
 	}
 	return (dst);
 }
